@@ -72,7 +72,7 @@ Definition w_unmatched_waiting (w : wpc) : bool := match w with W_Select | W_Tim
 Definition w_before_offer (w : wpc) : bool :=
   match w with W_Select | W_TimedOut | W_Late | W_Stuck => true | _ => false end.
 Definition w_after_offer (w : wpc) : bool :=
-  match w with W_Forward _ | W_Done (PMatch _) => true | _ => false end.
+  match w with W_Forward _ | W_Done (PMatch _) | W_Done PError => true | _ => false end.
 
 (* the life cycle of a registered poll and of the client that claimed it *)
 Definition shape_ok (e : entry) : bool :=
@@ -95,13 +95,25 @@ Definition shape_ok (e : entry) : bool :=
 Definition compat (cn pn : natty) : bool :=
   if is_unrestricted cn then negb (is_unrestricted pn) else is_unrestricted pn.
 
-Definition minfo_ok (br : list (fpr * url)) (e : entry) : Prop :=
-  forall m, (e_w e = W_Forward m \/ e_w e = W_Done (PMatch m)) ->
-  exists c, e_cl e = Some c /\ m_offer m = c_offer c /\ m_nat m = c_nat c /\ lookup (c_fp c) br = Some (m_url m).
+Definition blist := list (fpr * url).
 
-Definition client_ok (br : list (fpr * url)) (ncid : nat) (e : entry) : Prop :=
+(* what the waiter forwards / what the handler returned belongs to the client stored in the entry; the relay URL
+   of a match was configured for that client's fingerprint in an installed list, and it is the URL the client
+   was checked against unless the list was re-installed after the client's request; the handler fails only then *)
+Definition minfo_ok (hist : list blist) (e : entry) : Prop :=
+  (forall f, e_w e = W_Forward f ->
+     exists c, e_cl e = Some c /\ f_offer f = c_offer c /\ f_nat f = c_nat c /\ f_fp f = c_fp c) /\
+  (forall m, e_w e = W_Done (PMatch m) ->
+     exists c, e_cl e = Some c /\ m_offer m = c_offer c /\ m_nat m = c_nat c /\
+       (exists br, In br hist /\ lookup (c_fp c) br = Some (m_url m)) /\
+       (m_url m = c_url c \/ (c_epoch c < length hist)%nat)) /\
+  (e_w e = W_Done PError -> exists c, e_cl e = Some c /\ (c_epoch c < length hist)%nat).
+
+Definition client_ok (cur : blist) (hist : list blist) (ncid : nat) (e : entry) : Prop :=
   forall c, e_cl e = Some c ->
-    compat (c_nat c) (e_nat e) = true /\ lookup (c_fp c) br <> None /\ (c_id c < ncid)%nat.
+    compat (c_nat c) (e_nat e) = true /\ (c_id c < ncid)%nat /\ (c_epoch c <= length hist)%nat /\
+    (exists br, In br hist /\ lookup (c_fp c) br = Some (c_url c)) /\
+    (c_epoch c = length hist -> lookup (c_fp c) cur = Some (c_url c)).
 
 Definition answers_ok (e : entry) : Prop :=
   (forall a, e_buf e = Some a -> In a (e_posted e)) /\
@@ -114,8 +126,8 @@ Definition no_stuck (v : version) (e : entry) : Prop :=
   | V0 => e_w e <> W_Late /\ e_buf e = None
   end.
 
-Definition entry_ok (v : version) (br : list (fpr * url)) (ncid : nat) (e : entry) : Prop :=
-  shape_ok e = true /\ minfo_ok br e /\ client_ok br ncid e /\ answers_ok e /\ no_stuck v e.
+Definition entry_ok (v : version) (cur : blist) (hist : list blist) (ncid : nat) (e : entry) : Prop :=
+  shape_ok e = true /\ minfo_ok hist e /\ client_ok cur hist ncid e /\ answers_ok e /\ no_stuck v e.
 
 Fixpoint count_live (es : list entry) : Z :=
   match es with
@@ -124,7 +136,7 @@ Fixpoint count_live (es : list entry) : Z :=
   end.
 
 Record Inv (v : version) (s : state) : Prop := {
-  inv_entries : forall p e, nth_error (entries s) p = Some e -> entry_ok v (bridges s) (next_cid s) e;
+  inv_entries : forall p e, nth_error (entries s) p = Some e -> entry_ok v (bridges s) (br_hist s) (next_cid s) e;
   inv_idmap : forall sd p, In (sd, p) (idmap s) ->
       exists e, nth_error (entries s) p = Some e /\ e_sid e = sd /\ e_live e = true;
   inv_gauge : gauge s = count_live (entries s);
@@ -132,18 +144,20 @@ Record Inv (v : version) (s : state) : Prop := {
       exists aid, In (aid, e_sid e, a) (answer_log s);
   inv_cids : forall p q e1 e2 c1 c2, nth_error (entries s) p = Some e1 -> nth_error (entries s) q = Some e2 ->
       e_cl e1 = Some c1 -> e_cl e2 = Some c2 -> c_id c1 = c_id c2 -> p = q;
-  inv_done_cids : forall cid n fp o r, In (cid, n, fp, o, r) (done_clients s) -> (cid < next_cid s)%nat
+  inv_done_cids : forall cid n fp o r, In (cid, n, fp, o, r) (done_clients s) -> (cid < next_cid s)%nat;
+  inv_hist : In (bridges s) (br_hist s)
 }.
 
 Lemma inv_init v br : Inv v (init br).
 Proof.
-  constructor; cbn [init entries idmap gauge bridges next_cid answer_log done_clients].
+  constructor; cbn [init entries idmap gauge bridges br_hist next_cid answer_log done_clients].
   - intros p e H. destruct p; discriminate.
   - intros sd p [].
   - reflexivity.
   - intros p e a H. destruct p; discriminate.
   - intros p q e1 e2 c1 c2 H. destruct p; discriminate.
   - intros cid n fp o r [].
+  - left. reflexivity.
 Qed.
 
 (* ------------------------------------------------------------------ *)
@@ -165,15 +179,71 @@ Lemma count_live_upd_same f es p e : nth_error es p = Some e -> e_live (f e) = e
 Proof. intros H E. rewrite (count_live_upd f es p e H), E. lia. Qed.
 
 (* ------------------------------------------------------------------ *)
+(* the client record changes only in its program counter / timer flag    *)
+
+Definition csame (c c' : clrec) : Prop :=
+  c_id c' = c_id c /\ c_nat c' = c_nat c /\ c_fp c' = c_fp c /\ c_offer c' = c_offer c /\
+  c_url c' = c_url c /\ c_epoch c' = c_epoch c.
+
+Lemma csame_cpc pc c : csame c (set_cpc pc c).
+Proof. repeat split. Qed.
+Lemma csame_cfired c : csame c (set_cfired c).
+Proof. repeat split. Qed.
+
+Lemma minfo_ok_same hist e e' c c' :
+  minfo_ok hist e -> e_w e' = e_w e -> e_cl e = Some c -> e_cl e' = Some c' -> csame c c' -> minfo_ok hist e'.
+Proof.
+  intros [A [B C]] Hw Hc Hc' (Hid & Hn & Hf & Ho & Hu & He). rewrite Hc in *. unfold minfo_ok. rewrite Hw, Hc'.
+  split; [|split].
+  - intros f Hf0. destruct (A f Hf0) as [c0 [E [X [Y Z]]]]. injection E as <-. exists c'. repeat split; congruence.
+  - intros m Hm. destruct (B m Hm) as [c0 [E [X [Y [Z W]]]]]. injection E as <-. exists c'.
+    split; [reflexivity|]. split; [congruence|]. split; [congruence|]. rewrite Hf, Hu, He. split; assumption.
+  - intros Hm. destruct (C Hm) as [c0 [E X]]. injection E as <-. exists c'. split; [reflexivity|]. rewrite He. exact X.
+Qed.
+
+Lemma minfo_ok_w hist e e' :
+  minfo_ok hist e -> e_w e' = e_w e -> e_cl e' = e_cl e -> minfo_ok hist e'.
+Proof. intros H Hw Hc. unfold minfo_ok in *. rewrite Hw, Hc. exact H. Qed.
+
+Lemma client_ok_same cur hist n e e' c c' :
+  client_ok cur hist n e -> e_nat e' = e_nat e -> e_cl e = Some c -> e_cl e' = Some c' -> csame c c' ->
+  client_ok cur hist n e'.
+Proof.
+  intros H Hn Hc Hc' (Hid & Hnat & Hf & Ho & Hu & He) c0 Hc0. rewrite Hc' in Hc0. injection Hc0 as <-.
+  destruct (H c Hc) as [A [B [C [D E]]]]. rewrite Hn, Hid, Hnat, Hf, Hu, He. repeat split; assumption.
+Qed.
+
+Lemma client_ok_w cur hist n e e' :
+  client_ok cur hist n e -> e_nat e' = e_nat e -> e_cl e' = e_cl e -> client_ok cur hist n e'.
+Proof. intros H Hn Hc. unfold client_ok in *. rewrite Hn, Hc. exact H. Qed.
+
+(* ------------------------------------------------------------------ *)
 (* preservation: steps that rewrite one entry                            *)
 
-Lemma client_ok_mono br n n' e : (n <= n')%nat -> client_ok br n e -> client_ok br n' e.
-Proof. intros Hn H c Hc. destruct (H c Hc) as [A [B C]]. repeat split; try assumption. lia. Qed.
+Lemma client_ok_mono cur hist n n' e : (n <= n')%nat -> client_ok cur hist n e -> client_ok cur hist n' e.
+Proof. intros Hn H c Hc. destruct (H c Hc) as [A [B C]]. repeat split; try apply C; try assumption. lia. Qed.
 
-Lemma entry_ok_mono v br n n' e : (n <= n')%nat -> entry_ok v br n e -> entry_ok v br n' e.
+Lemma entry_ok_mono v cur hist n n' e : (n <= n')%nat -> entry_ok v cur hist n e -> entry_ok v cur hist n' e.
 Proof.
   intros Hn [A [B [C [D E]]]]. unfold entry_ok.
   split; [exact A|]. split; [exact B|]. split; [eapply client_ok_mono; eassumption|]. split; assumption.
+Qed.
+
+(* installing a list: every recorded fact survives (the new list is one more installed list, and every client's
+   request is now strictly older than the newest installation) *)
+Lemma entry_ok_install v cur hist n e br : entry_ok v cur hist n e -> entry_ok v br (br :: hist) n e.
+Proof.
+  intros [A [[B1 [B2 B3]] [C [D E]]]]. unfold entry_ok. split; [exact A|]. split; [|split; [|split; assumption]].
+  - split; [exact B1|]. split.
+    + intros m Hm. destruct (B2 m Hm) as [c [X [Y [Z [[b [Hb Hl]] W]]]]]. exists c.
+      split; [exact X|]. split; [exact Y|]. split; [exact Z|]. split.
+      * exists b. split; [right; exact Hb | exact Hl].
+      * destruct W as [W|W]; [left; exact W | right; cbn [length]; lia].
+    + intros Hm. destruct (B3 Hm) as [c [X Y]]. exists c. split; [exact X | cbn [length]; lia].
+  - intros c Hc. destruct (C c Hc) as [X [Y [Z [[b [Hb Hl]] W]]]].
+    split; [exact X|]. split; [exact Y|]. split; [cbn [length]; lia|]. split.
+    + exists b. split; [right; exact Hb | exact Hl].
+    + cbn [length]. intros Heq. lia.
 Qed.
 
 Definition live_z (e : entry) : Z := if e_live e then 1%Z else 0%Z.
@@ -183,9 +253,10 @@ Lemma inv_step_upd v s s' p e f :
   nth_error (entries s) p = Some e ->
   entries s' = upd p f (entries s) ->
   bridges s' = bridges s ->
+  br_hist s' = br_hist s ->
   (next_cid s <= next_cid s')%nat ->
   done_clients s' = done_clients s ->
-  entry_ok v (bridges s) (next_cid s') (f e) ->
+  entry_ok v (bridges s) (br_hist s) (next_cid s') (f e) ->
   e_sid (f e) = e_sid e ->
   (forall sd q, In (sd, q) (idmap s') -> In (sd, q) (idmap s) /\ (q = p -> e_live (f e) = true)) ->
   gauge s' = (gauge s - live_z e + live_z (f e))%Z ->
@@ -195,10 +266,10 @@ Lemma inv_step_upd v s s' p e f :
       (exists c, e_cl e = Some c /\ c_id c' = c_id c) \/ (e_cl e = None /\ (next_cid s <= c_id c')%nat)) ->
   Inv v s'.
 Proof.
-  intros I Hp He Hb Hn Hd Hok Hsid Hid Hg Hlog Hpost Hcid.
-  destruct I as [Ie Ii Ig Ipo Ic Id].
+  intros I Hp He Hb Hh Hn Hd Hok Hsid Hid Hg Hlog Hpost Hcid.
+  destruct I as [Ie Ii Ig Ipo Ic Id Ih].
   constructor.
-  - intros q e' Hq. rewrite He in Hq. rewrite Hb.
+  - intros q e' Hq. rewrite He in Hq. rewrite Hb, Hh.
     destruct (nth_upd_inv f _ _ _ _ Hq) as [[-> [x [Hx ->]]]|[Hne Hq']].
     + rewrite Hp in Hx. injection Hx as <-. exact Hok.
     + eapply entry_ok_mono; [exact Hn | eapply Ie; exact Hq'].
@@ -222,13 +293,14 @@ Proof.
     + rewrite Hp in Hx1. injection Hx1 as <-. exfalso.
       destruct (Hcid c1 Hc1) as [[c [Hce Hci]]|[Hnone Hfresh]].
       * apply Hne2. eapply Ic; [exact Hp | exact H2' | exact Hce | exact Hc2 | congruence].
-      * destruct (Ie _ _ H2') as [_ [_ [Hcl _]]]. destruct (Hcl c2 Hc2) as [_ [_ Hlt]]. lia.
+      * destruct (Ie _ _ H2') as [_ [_ [Hcl _]]]. destruct (Hcl c2 Hc2) as [_ [Hlt _]]. lia.
     + rewrite Hp in Hx2. injection Hx2 as <-. exfalso.
       destruct (Hcid c2 Hc2) as [[c [Hce Hci]]|[Hnone Hfresh]].
       * apply Hne1. symmetry. eapply Ic; [exact H1' | exact Hp | exact Hc1 | exact Hce | congruence].
-      * destruct (Ie _ _ H1') as [_ [_ [Hcl _]]]. destruct (Hcl c1 Hc1) as [_ [_ Hlt]]. lia.
+      * destruct (Ie _ _ H1') as [_ [_ [Hcl _]]]. destruct (Hcl c1 Hc1) as [_ [Hlt _]]. lia.
     + eapply Ic; eassumption.
   - intros cid n fp o r Hin. rewrite Hd in Hin. apply Id in Hin. lia.
+  - rewrite Hb, Hh. exact Ih.
 Qed.
 
 (* ------------------------------------------------------------------ *)
@@ -250,14 +322,14 @@ Ltac bool_crush :=
 Lemma inv_step_simple v s p e f :
   Inv v s ->
   nth_error (entries s) p = Some e ->
-  entry_ok v (bridges s) (next_cid s) (f e) ->
+  entry_ok v (bridges s) (br_hist s) (next_cid s) (f e) ->
   e_sid (f e) = e_sid e -> e_live (f e) = e_live e ->
   (forall a, In a (e_posted (f e)) -> In a (e_posted e)) ->
   (forall c', e_cl (f e) = Some c' -> exists c, e_cl e = Some c /\ c_id c' = c_id c) ->
   Inv v (with_entries (upd p f (entries s)) s).
 Proof.
   intros I Hp Hok Hsid Hlive Hpost Hcid.
-  eapply (inv_step_upd v s _ p e f I Hp); cbn [with_entries entries bridges next_cid done_clients idmap gauge answer_log];
+  eapply (inv_step_upd v s _ p e f I Hp); cbn [with_entries entries bridges br_hist next_cid done_clients idmap gauge answer_log];
     try reflexivity; try lia; auto.
   - intros sd q Hin. split; [exact Hin|]. intros ->. rewrite Hlive.
     destruct (inv_idmap v s I sd p Hin) as [e0 [H0 [_ Hl]]]. rewrite Hp in H0. injection H0 as <-. exact Hl.
@@ -266,6 +338,20 @@ Qed.
 
 Ltac same_client := let c := fresh "c" in let H := fresh "H" in
   intros c H; exists c; split; [exact H | reflexivity].
+
+Ltac ok_split := unfold entry_ok; split; [| split; [| split; [| split]]].
+Ltac unfold_ok := unfold shape_ok, answers_ok, no_stuck in *.
+
+(* minfo_ok of an entry whose waiter is in a state that carries no offer *)
+Lemma minfo_ok_none hist e :
+  (forall f, e_w e <> W_Forward f) -> (forall m, e_w e <> W_Done (PMatch m)) -> e_w e <> W_Done PError ->
+  minfo_ok hist e.
+Proof.
+  intros A B C. split; [|split].
+  - intros f H. elim (A f H).
+  - intros m H. elim (B m H).
+  - intros H. elim (C H).
+Qed.
 
 Lemma step_FireW v s p s' : Inv v s -> step v s (L_FireW p) = Some s' -> Inv v s'.
 Proof.
@@ -277,9 +363,6 @@ Proof.
   apply (inv_step_simple v s p e set_wfired I Hp); cbn; auto. same_client.
 Qed.
 
-Ltac ok_split := unfold entry_ok; split; [| split; [| split; [| split]]].
-Ltac unfold_ok := unfold shape_ok, minfo_ok, client_ok, answers_ok, no_stuck in *.
-
 Lemma step_WTake v s p s' : Inv v s -> step v s (L_WTake p) = Some s' -> Inv v s'.
 Proof.
   intros I H. cbn [step] in H.
@@ -290,9 +373,8 @@ Proof.
   apply (inv_step_simple v s p e (set_w W_TimedOut) I Hp); cbn; auto; [|same_client].
   unpack_ok Hok. ok_split; unfold_ok; cbn; rewrite ?Ew in *.
   - destruct (e_cl e) as [c|]; [|exact Hshape]. destruct (c_pc c); exact Hshape.
-  - intros m [Hm|Hm]; discriminate.
+  - apply minfo_ok_none; cbn; discriminate.
   - exact Hclient.
   - exact Hans.
   - destruct v; [split; [discriminate | apply Hstuck] | discriminate].
 Qed.
-
